@@ -103,6 +103,11 @@ func e4OracleC02(r *e4Result) string {
 	for _, bc := range r.Conns {
 		connAlive[bc.id] = !bc.dead
 	}
+	for _, e := range r.Log {
+		if e.Kind == "CLOSE-LOCAL" || e.Kind == "CLOSE-PEER" || e.Kind == "CUT" {
+			connAlive[e.Conn] = false // (also a connection the client closed itself, e.g. after a response timeout)
+		}
+	}
 	lastClientPkt := map[int]int64{}
 	for _, e := range r.Log {
 		if e4Emitted(e) {
@@ -116,8 +121,14 @@ func e4OracleC02(r *e4Result) string {
 		}
 	}
 	// (2) silence after completion
+	late := map[string]bool{} // "conn/id": that PUBCOMP was sent late (after the waiter may have given up): nothing follows from it
 	for _, e := range r.Log {
-		if e.Kind != "B" || e.Pkt == nil || e.Pkt.Type != rtPubComp || e.Note == "" {
+		if e.Kind == "B-LATE" && e.Pkt != nil && e.Pkt.Type == rtPubComp {
+			late[fmt.Sprintf("%d/%d", e.Conn, e.Pkt.ID)] = true
+		}
+	}
+	for _, e := range r.Log {
+		if e.Kind != "B" || e.Pkt == nil || e.Pkt.Type != rtPubComp || e.Note == "" || late[fmt.Sprintf("%d/%d", e.Conn, e.Pkt.ID)] {
 			continue
 		}
 		consumed := lastClientPkt[e.Conn] > e.Seq || (r.Quiesced && connAlive[e.Conn])
